@@ -61,6 +61,32 @@ Theorem C05_source_reader_constraints : forall l fuel cs, (list_max (map aval_de
 Proof. exact src_parse_constraints_ok. Qed.
 Print Assumptions C05_source_reader_constraints.
 
+(* the READER of the translated source (parse_tree / parse_attributes / parse_relations / parse_json in builder mode: the
+   tree value, no parent pointers): what the model reads, erased, is what the code reads; a failure is a failure, a
+   library error a library error *)
+Theorem C05_source_reader : forall doc pm, json_read doc = Ok pm ->
+  exists n0, forall fuel, (n0 <= fuel)%nat -> py_JSONReader_parse_json fuel doc = Ok (erase_fm pm).
+Proof. exact src_json_parse_json. Qed.
+Print Assumptions C05_source_reader.
+
+Theorem C05_source_reader_rejects : forall doc e, json_read doc = Err e ->
+  exists n0, forall fuel, (n0 <= fuel)%nat -> exists e', py_JSONReader_parse_json fuel doc = Err e'.
+Proof. exact src_json_parse_json_error. Qed.
+Print Assumptions C05_source_reader_rejects.
+
+(* the whole cycle on the translated source: writer, then reader, gives the model back *)
+Theorem C05_source_cycle : forall m, json_ok m = true -> rels_nonempty (root m) ->
+  exists d n0, forall fuel, (n0 <= fuel)%nat ->
+    py_to_json fuel m = Ok d /\ py_JSONReader_parse_json fuel d = Ok m.
+Proof.
+  intros m Hok Hne. destruct (json_roundtrip_erased m Hok Hne) as (d & pm & Hw & Hr & He).
+  destruct (src_json_parse_json d pm Hr) as (n1 & Hn1).
+  exists d, (Nat.max (fuel_fm m) n1). intros fuel Hf. split.
+  - rewrite src_to_json; [exact Hw|]. eapply Nat.le_trans; [apply Nat.le_max_l|exact Hf].
+  - rewrite Hn1; [now rewrite He|]. eapply Nat.le_trans; [apply Nat.le_max_r|exact Hf].
+Qed.
+Print Assumptions C05_source_cycle.
+
 Theorem C05_roundtrip_needs_nonempty : forall m d,
   json_write m = Ok d -> json_read d = Ok (annotate_fm m) -> rels_nonempty (root m).
 Proof. exact json_roundtrip_needs_nonempty. Qed.
